@@ -144,6 +144,7 @@ def do_check(pid, tier, keep=False, only=None):
                         # SAT cannot re-decide it in time (float multipliers): keep the SMT verdict, but it only
                         # counts as a violation if its counterexample fails when replayed natively on the real code
                         r['needs_native'] = True
+                        r['smt_solver'] = cur
                         r['wall_s'] += r2['wall_s']
                     else:
                         r2['wall_s'] += r['wall_s']
@@ -222,7 +223,7 @@ def do_check(pid, tier, keep=False, only=None):
                             rec['status'] = 'KNOWN-FINDING ' + kf_id
                             rec['known_finding'] = True
                         else:
-                            hv.append({'unit': u, 'harness': hn, 'clause': clause, 'oid': oid, 'detail': detail, 'kani_out': r['out'], 'krun': krun, 'solver': r.get('final_solver'), 'needs_native': r.get('needs_native'),
+                            hv.append({'unit': u, 'harness': hn, 'clause': clause, 'oid': oid, 'detail': detail, 'kani_out': r['out'], 'krun': krun, 'solver': r.get('final_solver'), 'needs_native': r.get('needs_native'), 'smt_solver': r.get('smt_solver'),
                                        'descs': sorted(res['obl_desc'].get(clause, [])) if clause != 'no_panic' else [d['desc'] for d in res['panics']]})
                     elif st == 'UNREACHABLE':
                         undecided.append(f'{u.name}:{hn}: vacuity guard: clause {clause} unreachable')
@@ -385,8 +386,14 @@ def make_replay(pid, v, krun):
             if not wanted:
                 rec['twin_note'] = 'the non-modular twin harness produced no counterexample within 300 s (the change may be unobservable through this function, or the search timed out)'
         if not wanted:
-            r = krun.run_harness(u, v['harness'], playback=True, solver_override=('cadical' if v.get('needs_native') else v.get('solver')), timeout=300)
-            tests = K.parse_playback(r['out'])
+            # an SMT-reported failure: ask the SMT back end itself for the trace first (fast), then SAT
+            order = [v.get('smt_solver'), 'cadical'] if v.get('needs_native') else [v.get('solver')]
+            tests = []
+            for sv in order:
+                r = krun.run_harness(u, v['harness'], playback=True, solver_override=sv, timeout=300)
+                tests = K.parse_playback(r['out'])
+                if tests:
+                    break
             for t in tests:
                 if t['desc'] in v.get('descs', []):
                     wanted.append(t)
